@@ -481,3 +481,39 @@ func harnessC10OfflineRecipients(kind int) {
 
 func Harness_C10_offline_recipients_grp() { harnessC10OfflineRecipients(verifKindGrp) }
 func Harness_C10_offline_recipients_p2p() { harnessC10OfflineRecipients(verifKindP2P) }
+
+// ---- a group topic is unloaded when idle: whatever it had announced before (it answers "on" to any member's
+// status query as long as it is in memory, announced or not), every member allowed to see presence is told "off"
+// on 'me', exactly once, and the topic is handed to the hub for unloading.
+func Harness_C10_group_unload_announces_off() {
+	fx := verifNewTopic(verifKindGrp, 3)
+	t := fx.topic
+	for _, u := range fx.uids {
+		pud := t.perUser[u]
+		pud.modeWant, pud.modeGiven = verifMode("want"), verifMode("given")
+		t.perUser[u] = pud
+	}
+	// the "loaded" mark (set once a foreground session attached and "on" was broadcast) is arbitrary
+	if verifNondetBool("announcedOnline") {
+		t.status |= topicStatusLoaded
+	} else {
+		t.status &^= topicStatusLoaded
+	}
+	t.handleTopicTimeout(fx.hub, "", time.NewTimer(time.Hour), time.NewTimer(time.Hour))
+	told := map[string]int{}
+	for _, m := range verifDrainHub(fx.hub) {
+		if m.Pres != nil && m.Pres.What == "off" && m.Pres.Topic == "me" && m.Pres.Src == t.name {
+			told[m.RcptTo]++
+		}
+	}
+	for _, u := range fx.uids {
+		pud := t.perUser[u]
+		if (pud.modeWant & pud.modeGiven).IsPresencer() {
+			verifAssert(told[u.UserId()] == 1, "member-told-the-group-went-offline")
+		} else {
+			verifAssert(told[u.UserId()] == 0, "presence-only-with-P-permission")
+		}
+	}
+	verifAssert(len(fx.hub.unreg) == 1, "unloaded-topic-unregistered-once")
+	verifReach("end")
+}
